@@ -57,6 +57,10 @@ Start == /\ pc = "start"
 Next == Start \/ (BC!HNext /\ UNCHANGED target)
 Spec == Init /\ [][Next]_<<scalars, points, heap, size, limbSize, extended, count, pc, max1, max2, hevs, res, target>>
 
+\* liveness: under weak fairness every run terminates (each iteration subtracts a non-zero scalar)
+FairSpec == Spec /\ WF_<<scalars, points, heap, size, limbSize, extended, count, pc, max1, max2, hevs, res, target>>(Next)
+Terminates == <>(pc = "done")
+
 Running == pc \in {"loop", "final", "done"}
 
 \* (I1) the linear combination is preserved by every step
